@@ -53,7 +53,7 @@ func (c c18Case) ID() string {
 func c18Cases(tier string) []c18Case {
 	setups := []string{"idle", "write@write.begin", "write@dag.add", "write@write.afterAppend", "write@cache.put", "write@write.afterPersist", "write@write.afterIndex",
 		"repl@dag.get", "repl@repl.beforeSlot", "repl@repl.afterDequeue", "repl@repl.beforeDone", "repl@store.beforeLoadComplete", "load@dag.get"}
-	injects := []string{"close", "close2", "iclose", "iclose2", "drop", "close+drop"}
+	injects := []string{"close", "close2", "iclose", "iclose2", "drop", "close+drop", "close+reopen+staleclose+iclose"}
 	kinds := []string{"eventlog", "keyvalue"}
 	if tier == "thorough" {
 		kinds = append(kinds, "docstore")
@@ -226,6 +226,26 @@ func runC18Case(c c18Case) (string, []explore.Violation) {
 		injected = append(injected, async("store.Close", s.Close))
 		_ = sim.Quiesce()
 		injected = append(injected, async("store.Drop", s.Drop))
+	case "close+reopen+staleclose+iclose":
+		// close the handle, open the same database again on the same instance, close the stale handle once
+		// more (must be a no-op), then close the instance: the second handle must be closed with it
+		injected = append(injected, async("store.Close", s.Close))
+		_ = sim.Quiesce()
+		net.Gates.Enable(nil)
+		for i := 0; i < 50 && net.Gates.ReleaseAll() > 0; i++ {
+			_ = sim.Quiesce()
+		}
+		_ = sim.Quiesce()
+		reopened, err := P.DB.Open(bg, addr, &orbitdb.CreateDBOptions{Replicate: boolp(true)})
+		if err != nil {
+			bad("reopen-after-close-failed", err.Error())
+		} else {
+			_ = reopened.Load(bg, -1)
+			_ = sim.Quiesce()
+		}
+		injected = append(injected, async("store.Close #2", s.Close))
+		_ = sim.Quiesce()
+		injected = append(injected, async("orbitdb.Close", P.DB.Close))
 	}
 	if err := sim.Quiesce(); err != nil {
 		bad("hang:not-quiescent-after-"+c.Inject, "system keeps running")
@@ -269,7 +289,7 @@ func runC18Case(c c18Case) (string, []explore.Violation) {
 		}
 	}
 	// leak check
-	instanceClosed := strings.HasPrefix(c.Inject, "iclose")
+	instanceClosed := strings.Contains(c.Inject, "iclose")
 	now := sim.RepoGoroutines()
 	want := baseline
 	if instanceClosed {
@@ -376,7 +396,7 @@ var _ ipfslog.Entry
 func init() {
 	explore.Register(&explore.CheckDef{
 		ID: "C18", Level: "exploration",
-		Rule: "cross product, each case on a fresh world: store type x moment {idle; in-flight write parked at each of 6 points (begin, block write, after append, head put, after persist, after view update); in-flight replication parked at each of 5 points (fetch, before slot, after dequeue, before done, before load-complete); in-flight Load parked in a fetch} x injection {store.Close, store.Close twice, orbitdb.Close, orbitdb.Close twice, store.Drop, Close then Drop} x {alone, with a sibling database on the same instance}. After the injection everything parked is released and every operation is issued once on the closed object. Oracle at quiescence (state-based, no timeouts): every call has returned, no panic, the go-orbit-db goroutines still alive are exactly those present before the store was opened (none after orbitdb.Close), reopening and loading yields all acknowledged entries, Drop removed this database's cache and left the sibling untouched. Non-trivial = cases with a goroutine parked mid-operation at the injection.",
+		Rule:   "cross product, each case on a fresh world: store type x moment {idle; in-flight write parked at each of 6 points (begin, block write, after append, head put, after persist, after view update); in-flight replication parked at each of 5 points (fetch, before slot, after dequeue, before done, before load-complete); in-flight Load parked in a fetch} x injection {store.Close, store.Close twice, orbitdb.Close, orbitdb.Close twice, store.Drop, Close then Drop, Close + reopen the same database + Close of the stale handle + orbitdb.Close} x {alone, with a sibling database on the same instance}. After the injection everything parked is released and every operation is issued once on the closed object. Oracle at quiescence (state-based, no timeouts): every call has returned, no panic, the go-orbit-db goroutines still alive are exactly those present before the store was opened (none after orbitdb.Close), reopening and loading yields all acknowledged entries, Drop removed this database's cache and left the sibling untouched. Non-trivial = cases with a goroutine parked mid-operation at the injection.",
 		Units:  func(tier string) []explore.Unit { return explore.ChunkUnits("c18-"+tier, 16) },
 		Budget: func(tier string) float64 { return 400 },
 		RunUnit: func(c *explore.Ctx) {
